@@ -38,8 +38,8 @@ def show(k: Kind) -> str:
     if k[0] == "COND":
         return f"({show(k[2])} if {k[1]} else {show(k[3])})"
     names = {"T": "tuple", "M": "mask", "LIN": "linear-index", "N": "size", "RANK": "rank", "FLAT": "flat-array", "ARR": "array", "FLATMASK": "flat-mask",
-             "RANGES": "ranges", "NAMES": "names", "DICT": "dict-keyed-by", "EL": "entry-of", "CTR": "counter-over"}
-    return f"{names.get(k[0], k[0])}<{k[1]}>"
+             "RANGES": "ranges", "NAMES": "names", "DICT": "dict-keyed-by", "EL": "entry-of", "CTR": "counter-over", "POS": "position-in-a-sequence-of", "LEN": "length-of-a-sequence-of"}
+    return f"{names.get(k[0], k[0])}<{show(k[1]) if isinstance(k[1], tuple) else k[1]}>"
 
 
 def dom(k: Kind) -> str | None:
@@ -96,11 +96,12 @@ SIGS: dict[str, Sig] = {
     "pipefunc.map._run_info.RunInfo.init_store": Sig({}),
     "pipefunc.map.adaptive._sequence": Sig({"shape": T_FULL, "mask": MASK}, ("SEQ", LIN_EXT)),
     "pipefunc.map.adaptive._learner": Sig({}),
+    "pipefunc.map.adaptive._split_sequence_learner": Sig({}),
     "pipefunc.map.adaptive._execute_iteration_in_map_spec": Sig({"index": LIN_EXT}),
 }
 OPTIONAL_SIGS = {  # helpers a refactor may inline or remove; the callers' obligations remain
     "pipefunc.map._run._indices_to_flat_index", "pipefunc.map._run._select_kwargs_and_eval_resources", "pipefunc.map._run._init_result_arrays",
-    "pipefunc.map._run._prepare_submit_map_spec", "pipefunc.map._run._output_from_mapspec_task", "pipefunc.map.adaptive._learner",
+    "pipefunc.map._run._prepare_submit_map_spec", "pipefunc.map._run._output_from_mapspec_task", "pipefunc.map.adaptive._learner", "pipefunc.map.adaptive._split_sequence_learner",
 }
 BASE_PROPERTIES = {"full_shape": T_FULL, "strides": T_EXT, "size": ("N", EXT)}  # StorageBase, analysed against their declared kinds
 STORAGE_CTOR = {"shape": T_EXT, "internal_shape": T_INT, "shape_mask": MASK}  # StorageBase.__init__(folder, shape, internal_shape, shape_mask)
@@ -229,6 +230,8 @@ class KindAnalysis:
                 b = self.k(base)
                 if b and b[0] in ("ARR", "MASKARR"):
                     return ("FLATMASK", b[1])
+            if e.attr == "sequence" and isinstance(base, ast.Name) and any(p_.arg == base.id and p_.annotation is not None and "SequenceLearner" in norm(p_.annotation) for p_ in self.fn.params):
+                return ("SEQ", LIN_EXT)  # a learner made by _learner runs over _sequence(...): linear indices of the external space
             if e.attr in ("external_indices",):
                 return ("NAMES", EXT)
             if e.attr in ("output_indices",):
@@ -310,6 +313,9 @@ class KindAnalysis:
                 if lk and rk and lk[0] == "T" and rk[0] == "T":
                     return ("T", f"{lk[1]}+{rk[1]}")  # concatenation, see ast.Tuple above
             return None
+        if isinstance(e, ast.List) and len(e.elts) == 1 and not isinstance(e.elts[0], ast.Starred):
+            inner = self.k(e.elts[0])
+            return ("SEQ", inner) if inner is not None else None
         if isinstance(e, (ast.GeneratorExp, ast.ListComp)):
             return self._comp(e)
         if isinstance(e, ast.Call):
@@ -367,6 +373,8 @@ class KindAnalysis:
             return self.k(args[0])
         if name == "len" and args:
             a = self.k(args[0])
+            if a and a[0] == "SEQ" and a[1] is not None:
+                return ("LEN", a[1])  # how many elements a sequence has (not a size of the index space)
             return ("RANK", dom(a)) if dom(a) else None
         if name == "sum" and args:
             a = self.k(args[0])
@@ -380,6 +388,8 @@ class KindAnalysis:
                 return ("SEQ", ("LIN", a[1]))
             if a and a[0] == "RANK":
                 return ("SEQ", ("CTR", a[1]))
+            if a and a[0] == "LEN":
+                return ("SEQ", ("POS", a[1]))  # positions 0..n-1 IN a sequence of such elements - not the elements
             return None
         if name == "enumerate" and args:
             return self.k(args[0])
@@ -459,6 +469,9 @@ class KindAnalysis:
                 self.pair(c, kk, sk, f"`{norm(c)[:60]}` slices a key against a shape")
             d_ = dom(sk) or dom(kk)
             return ("RANGES", d_) if d_ else None
+        if short == "SequenceLearner" and len(args) >= 2:
+            self.need(args[1], self.k(args[1]), ("SEQ", LIN_EXT), "the sequence of a SequenceLearner (each element is handed to _execute_iteration_in_map_spec as the linear index)")
+            return None
         if name == "_MapSpecArgs":
             # the record that carries kinds from submission to post-processing: check the seed table against its construction
             cls_q = self.prog.resolve_name(self.fn.module, name, self.fn)
